@@ -20,26 +20,9 @@ def bond_index_rule(chk, src, rule):
     # ---- chain compression: abstract run (chain_rules.py)
     from .chain_rules import compress_bond_rule
     compress_bond_rule(chk, src, rule)
-    up = src.func(MP, "MatrixProduct._update_mps")
-    calls = [c for c in ast.walk(up.node) if isinstance(c, ast.Call) and unparse(c.func).endswith("compute_m_trunc")]
-    seen = {}
-    for c in calls:
-        # which branch: find enclosing `if self.to_right`
-        args = [unparse(a).replace(" ", "") for a in c.args]
-        seen.setdefault(args[1], []).append(args)
-    okp = set(seen) == {"cidx[0]", "cidx[-1]"} and all(a[2] == "self.to_right" for v in seen.values() for a in v)
-    # cidx[0] must be in to_right branches, cidx[-1] in the others
-    def branch_of(call):
-        for n in ast.walk(up.node):
-            if isinstance(n, ast.If) and unparse(n.test) == "self.to_right":
-                if any(x is call for s in n.body for x in ast.walk(s)):
-                    return True
-                if any(x is call for s in n.orelse for x in ast.walk(s)):
-                    return False
-        return None
-    okbr = all((branch_of(c) is True) == (unparse(c.args[1]).replace(" ", "") == "cidx[0]") for c in calls)
-    chk.ob(rule, "_update_mps: site passed per direction", okp and okbr, up.where, {k: len(v) for k, v in seen.items()}, "cidx[0] when sweeping right, cidx[-1] when sweeping left",
-           line=up.node.lineno, detail="the bond between the two blocks is cidx[0]+1 (right sweep) = cidx[-1] (left sweep); passing the other site limits the wrong bond")
+    # ---- renormalised-basis update: abstract run (chain_rules.update_mps_rule): kept count from the spectrum of the kept side, for the site of the truncated bond
+    from .chain_rules import update_mps_rule
+    update_mps_rule(chk, src, {"bond": rule})
     for rel, qual in ((TREE, "TTNS.compress_node"), (TREE, "TTNS.update_2site")):
         fi = src.func(rel, qual)
         cfgc = [c for c in ast.walk(fi.node) if isinstance(c, ast.Call) and unparse(c.func).endswith("compute_m_trunc")]
@@ -131,16 +114,18 @@ def run(chk):
     chk.rule("threshold-count", "threshold criterion = count of normalised singular values above the threshold (abstract run)", 1)
     from .mini_specs import threshold_count
     threshold_count(chk, src, "threshold-count")
-    chk.rule("sorted-before-prefix", "values of a full (blocked, unsorted) svd_qn never flow into _update_ms / truncate_tensors / a prefix slice", 4)
+    chk.rule("sorted-before-prefix", "values of a full (blocked, unsorted) svd_qn never flow into _update_ms / truncate_tensors / a prefix slice (the chain update _update_mps: abstract run, co-truncate)", 1)
     chk.rule("svd-sort", "svd_qn (abstract run with column provenance): columns on the rows of their sector with its label; economic SVD: u, v, s and both label lists in one descending order", 3)
     chk.rule("co-truncate", "u, s, v and both label lists are cut by one bound / selected by one index (abstract runs of _update_ms and truncate_tensors; select_basis)", 8)
     chk.rule("trunc-bound", "compute_m_trunc: kept count = min over the bounds its criterion names; unknown criteria rejected (abstract run)", 4)
     chk.rule("bond-index", "explicit-list path and config path select the same bond for (site, direction)", 6)
-    chk.rule("select-sorts", "select_basis ranks candidates by descending singular value and takes at most Mmax", 3)
+    chk.rule("select-sorts", "select_basis (abstract run with column provenance, 7 cases): the largest values are kept, per-sector quota first when asked, at most Mmax, no duplicates", 7)
 
     sites = Q.svd_sites(src, [MP, MPS, TREE])
     for i, s in enumerate(sites):
         n_same = sum(1 for t in sites[:i] if t.fi is s.fi)
+        if s.fi.qual == "MatrixProduct._update_mps":
+            continue        # decided by the abstract run of _update_mps (co-truncate): factors go to select_basis whole, spectra are sorted before any prefix is taken
         if s.kind == "svd" and s.mode == "full" or s.kind == "eigh":
             bad = Q.misuse_of_unsorted(s)
             chk.ob("sorted-before-prefix", f"{s.fi.qual}#{n_same}", not bad, s.fi.where, [b[1] for b in bad][:3] or "only select_basis / entropy / np.sort consumers",
@@ -153,6 +138,8 @@ def run(chk):
     # ---- co-truncate: abstract runs
     from .chain_rules import update_ms_rule
     update_ms_rule(chk, src, "co-truncate")
+    from .chain_rules import update_mps_rule
+    update_mps_rule(chk, src, {"labels": "co-truncate", "store": "co-truncate"})
     from .. import ntensor as NTm
     from ..ntensor import NT, Leg
     from ..syminterp import SymInterp
@@ -167,30 +154,9 @@ def run(chk):
         and list(res[3]) == ql[:5] and list(res[4]) == qr[:5]
     chk.ob("co-truncate", "truncate_tensors", ok, tt.where, repr(res)[:200], "(u[:, :m], s[:m], v[:, :m], qnl[:m], qnr[:m])", line=tt.node.lineno,
            detail="factors, singular values and both label lists must be cut by the one kept count and returned in the order they were given")
-    sb = src.func(LIB, "select_basis")
-    idx = set()
-    for n in ast.walk(sb.node):
-        if isinstance(n, ast.For) and unparse(n.iter).replace(" ", "") == "range(mpsdim)":
-            for x in ast.walk(n):
-                if isinstance(x, ast.Subscript) and isinstance(x.value, ast.Name) and x.value.id in ("vset", "compset", "qnlist", "sset") and isinstance(x.ctx, ast.Load):
-                    sl = x.slice.elts[-1] if isinstance(x.slice, ast.Tuple) else x.slice
-                    idx.add((x.value.id, unparse(sl)))
-    names = {a for a, _ in idx}
-    keys = {b_ for _, b_ in idx}
-    chk.ob("co-truncate", "select_basis: one index for vectors, complement, labels, singular values", names == {"vset", "compset", "qnlist", "sset"} and len(keys) == 1,
-           sb.where, sorted(idx), "vset, compset, qnlist, sset all indexed by sidx[idim]", line=sb.node.lineno)
-    # ---- select_basis sorting
-    sorts = [n for n in ast.walk(sb.node) if isinstance(n, ast.Call) and unparse(n.func) == "sorted"]
-    okd = bool(sorts) and all(any(k.arg == "reverse" and unparse(k.value) == "True" for k in c.keywords) for c in sorts)
-    chk.ob("select-sorts", "descending sort by singular value", okd and len(sorts) >= 2, sb.where, [unparse(c)[:70] for c in sorts], "sorted(..., key=s, reverse=True)", line=sb.node.lineno,
-           detail="select_basis must rank candidate vectors by descending singular value; otherwise the smallest are kept")
-    nb = [s for s in ast.walk(sb.node) if isinstance(s, ast.Assign) and unparse(s.targets[0]) == "nbasis"]
-    t0 = bound_terms(nb[0].value) if nb else None
-    chk.ob("select-sorts", "nbasis = min(len(candidates), Mmax)", t0 is not None and "Mmax" in t0 and any("len(" in t for t in t0), sb.where, t0, ["len(basdic)", "Mmax"],
-           line=nb[0].lineno if nb else None, detail="the number of selected vectors must be bounded by the limit Mmax")
-    take = [n for n in ast.walk(sb.node) if isinstance(n, ast.Subscript) and unparse(n.value) == "sortbasdic" and isinstance(n.slice, ast.Slice)]
-    chk.ob("select-sorts", "remaining vectors taken from the head of the sorted list", len(take) == 1 and unparse(take[0].slice).replace(" ", "") in ("0:nbasis", ":nbasis"),
-           sb.where, [unparse(t) for t in take], "sortbasdic[0:nbasis]")
+    # ---- select_basis: abstract run on matrices with column provenance (chain_rules.select_basis_rule)
+    from .chain_rules import select_basis_rule
+    select_basis_rule(chk, src, "co-truncate", "select-sorts")
     # ---- trunc-bound
     cc = src.cls(CONFIGS, "CompressConfig")
     fx = cc.methods["_fixed_m_trunc"]
@@ -222,8 +188,18 @@ def run(chk):
         chk.ob("trunc-bound", f"compute_m_trunc[{name}]", ok, cm.where, repr(res), "min over " + " and ".join(sorted(req)) + " (len(sigma) may be added)", line=cm.node.lineno,
                detail=f"criterion `{name}`: the kept count must be bounded by " + " and ".join({"THR": "the threshold count", "FIX": "the per-bond limit"}[x] for x in sorted(req)) +
                       "; a missing bound lets the bond dimension exceed the configured limit (or ignores the threshold)")
-    els = [s for s in ast.walk(cm.node) if isinstance(s, ast.Assert) and unparse(s.test) == "False"]
-    chk.ob("trunc-bound", "compute_m_trunc: unknown criteria rejected", len(els) == 1, cm.where, len(els), 1)
+    # an unknown criterion must be rejected, not answered with some default bound
+    from ..syminterp import SymRaise
+    me = Sym("config", criteria=Sym("<not a criterion>"), _threshold_m_trunc=lambda sigma: MinSet({"THR"}), _fixed_m_trunc=lambda sigma, idx, left: MinSet({"FIX"}))
+    it = SymInterp(src, None, {"CompressCriteria": crit, "min": smin, "len": lambda x: MinSet({"LEN"})})
+    it.check_asserts = True
+    try:
+        res = it.call_function(cm, [me, "sigma", "idx", "left"])
+        rejected = False
+    except SymRaise as e:
+        res, rejected = str(e), True
+    chk.ob("trunc-bound", "compute_m_trunc: unknown criteria rejected", rejected, cm.where, repr(res)[:80], "an exception", line=cm.node.lineno,
+           detail="a criterion outside {threshold, fixed, both} must raise; answering it with one of the bounds silently ignores the other")
     # the per-bond limit, the cap by the number of singular values and the explicit-limit paths of compress / compress_node / update_2site are decided by abstract runs
     # (bond-index: chain_rules.compress_bond_rule; decomposition-axes: tree_rules)
     from . import tree_rules as TR
